@@ -1119,9 +1119,8 @@ tp_shutdown(tp_p tp) {
 
 	if (NULL == tp)
 		return;
-	if (0 != tp->shutdown)
-		return;
-	tp->shutdown ++;
+	if (0 != __sync_fetch_and_add(&tp->shutdown, 1))
+		return; /* Only first caller do shutdown. */
 	/* Private virtual thread. */
 	if (TP_THREAD_STATE_RUNNING == tp->pvt->state) { /* Started by tp_create(). */
 		tp->pvt->state = TP_THREAD_STATE_STOP;
